@@ -70,6 +70,9 @@ var g03Payloads = []g03Payload{
 	{"union", "union_select_DaD,2"}, {"taut", "or_DaD=DaD"}, {"func", "and_load%file(DxD)"}, {"func", "and_extractvalue(1,concat(S~S,version()))"},
 	// a separator between a function name and its parenthesis
 	{"func", "and_sleep_(5)"}, {"func", "or_sleep_(5)"}, {"func", "or_benchmark_(9,md5(1))"}, {"func", "and_if_(1=1,sleep(5),0)"}, {"stack", ";_select_sleep_(5)"}, {"func", "or_pg%sleep_(5)"}, {"func", "and_1=sleep_(5)"}, {"union", "union_select_user_()"},
+	// the function names that are words until an opening parenthesis follows (CURRENT_USER, USER_NAME ...)
+	{"union", "union_select_current%user()"}, {"union", "union_select_1,user%name(),3"}, {"func", "and_length(current%user())>0"}, {"func", "and_ascii(substring(user%name(),1,1))>1"},
+	{"taut", "or_current%user()=current%user()"}, {"union", "union_select_user%id(),current%timestamp()"}, {"func", "and_1=convert(int,user%name())"}, {"func", "or_current%date()=current%date()"}, {"union", "union_select_password(1),localtime()"},
 	// T-SQL IF after a statement separator
 	{"stack", ";_if_(1=1)_waitfor_delay_Q0:0:5Q"}, {"stack", ";if(1=1)_drop_table_t"}, {"stack", ";_if_exists(select_1)_drop_table_t"}, {"stack", ";_if_1=1_drop_table_t"},
 	// comment truncation (quoted prefixes only)
